@@ -5,6 +5,10 @@ import specs.refsem as R
 SCHEMA = {
     'Condition': {'left_param': 'str', 'operator': 'str', 'right_param': ('opt', 'str'), 'right_value': ('opt', 'str'),
                   'left_use_calibrated_value': 'bool', 'right_use_calibrated_value': 'bool'},
+    'BooleanExpression': {'expression': ('rec', ['Condition', 'Anded', 'Ored'])},
+    'Anded': {'conditions': ('list', ('rec', 'Condition')), 'ors': ('list', ('rec', 'Ored'))},
+    'Ored': {'conditions': ('list', ('rec', 'Condition')), 'ands': ('list', ('rec', 'Anded'))},
+    'DiscreteLookup': {'match_criteria': ('list', ('rec', 'Comparison')), 'lookup_value': 'real'},
     'Comparison': {'required_value': 'str', 'referenced_parameter': 'str', 'operator': 'str',
                    'use_calibrated_value': 'bool'},
 }
@@ -195,7 +199,7 @@ def _build_lookup(r):
 # packets whose values are of the classes C06 speaks about (int / float / text; raw values int / float / text)
 PKT_C06 = ('mobj', 'CCSDSPacket', {'__items__': ('odict', {'kinds': ['IntParameter', 'FloatParameter', 'StrParameter'],
                                                          'rawkinds': ['int', 'real', 'str']})})
-OP_VALID = ' or '.join(f"self.operator == '{o}'" for o in OPS)
+OP_VALID = 'valid_op(self.operator)'
 
 CONTRACTS = [
     Contract(
@@ -208,12 +212,14 @@ CONTRACTS = [
         returns='bool',
         # class invariant established by Comparison._validate: the operator is one of the accepted spellings;
         # bool- and bytes-valued operands are outside the statement (the packet type above / the native scope predicate)
-        requires=[(OP_VALID, ['__proof__']),
-                  ('comparison_in_scope(self, packet, current_parsed_value)', ['__native__'])],
+        requires=[('comparison_in_scope(self, packet, current_parsed_value)', ['__native__'])],
+        may_raise={'KeyError': 'not valid_op(self.operator)'},
         ensures={
             # C06 (PROVED): a genuine bool equal to the stated relation applied to the selected value and the literal
             # interpreted in the type of that value - for EVERY value, zero / negative / empty included
             'truth': ('result == sem_comparison(self, packet, current_parsed_value)', ['__proof__']),
+            # the same, as the closed term clients quantify over (definition revealed here, opaque elsewhere)
+            'denotes': ('result == sem_cmp(self, packet, current_parsed_value)', ['__proof__']),
             # native: against the independent reference with exact rational comparison
             'truth_exact': ('(result is True or result is False) and '
                             'result == ref_comparison(self, packet, current_parsed_value)', ['__native__']),
@@ -222,6 +228,7 @@ CONTRACTS = [
             'ComparisonError': 'not coercible(selected_value(self, packet, current_parsed_value), self.required_value)',
             'ValueError': 'not (self.referenced_parameter in packet) and current_parsed_value is None',
         },
+        reveal=['sem_cmp'],
         modifies=[],
         native={'gen': _gen_comparison, 'build': _build_comparison},
     ),
@@ -232,17 +239,16 @@ CONTRACTS = [
         returns='bool',
         # operands of the same kind (both numeric - int versus float included - or both text); other mixtures are
         # outside the property statement.  The operator spelling is validated by Condition._validate.
-        requires=[(OP_VALID, ['__proof__']),
-                  ('implies(self.left_param in packet and (is_none(self.right_param) or self.right_param in packet) and '
-                   '(not is_none(self.right_param) or (not is_none(self.right_value) and '
-                   ' coercible(cond_side(packet, self.left_param, self.left_use_calibrated_value), self.right_value))), '
-                   'comparable(cond_side(packet, self.left_param, self.left_use_calibrated_value), cond_right(self, packet)))',
-                   ['__proof__']),
+        requires=[
                   ('condition_in_scope(self, packet)', ['__native__'])],
+        # an operator outside the accepted spellings (excluded by Condition._validate) -> KeyError; ordering between text
+        # and numbers (outside the statement) -> TypeError
+        may_raise={'KeyError': 'not valid_op(self.operator)', 'TypeError': 'True'},
         ensures={
             # PROVED: a genuine bool (never NotImplemented) equal to the relation over the two selected operands,
             # int-versus-float operands compared mathematically
             'truth': ('result == sem_condition(self, packet)', ['__proof__']),
+            'denotes': ('result == sem_cond(self, packet)', ['__proof__']),
             'truth_exact': ('(result is True or result is False) and result == ref_condition(self, packet)', ['__native__']),
         },
         raises={
@@ -251,28 +257,81 @@ CONTRACTS = [
             'ValueError': ('self.left_param in packet and is_none(self.right_param) and (is_none(self.right_value) or '
                            'not coercible(cond_side(packet, self.left_param, self.left_use_calibrated_value), self.right_value))'),
         },
+        reveal=['sem_cond'],
         modifies=[],
         native={'gen': _gen_condition, 'build': _build_condition},
     ),
     Contract(
         target='xtce.comparisons.BooleanExpression.evaluate',
         props=['C06', 'C05', 'C08', 'C01'],
-        params={}, native_only=PENDING,
+        params={'self': ('rec', 'BooleanExpression'), 'packet': PKT_C06, 'current_parsed_value': 'none'},
+        returns='bool',
         requires=[],
-        ensures={'truth': '(result is True or result is False) and result == ref_boolexpr(self, packet)'},
-        raises={'ComparisonError': "outcome(ref_boolexpr(self, packet)) == 'ComparisonError'",
-                'ValueError': "outcome(ref_boolexpr(self, packet)) == 'ValueError'"},
+        ensures={
+            # PROVED: nested ANDed / ORed groups to ANY depth (the recursive calls use the callee contracts)
+            'truth': ("result == (sem_cond(self.expression, packet) if cls_is(self.expression, 'Condition') else "
+                      "(sem_and(self.expression, packet) if cls_is(self.expression, 'Anded') else "
+                      "sem_or(self.expression, packet)))", ['__proof__']),
+            'truth_exact': ('(result is True or result is False) and result == ref_boolexpr(self, packet)', ['__native__']),
+        },
+        may_raise={'ComparisonError': 'True', 'ValueError': 'True', 'KeyError': 'True', 'TypeError': 'True'},
         modifies=[],
         native={'gen': _gen_boolexpr, 'build': _build_boolexpr},
     ),
     Contract(
+        target='xtce.comparisons.BooleanExpression.evaluate._and',
+        props=['C06', 'C05', 'C08', 'C01'],
+        params={'anded': ('rec', 'Anded')}, captures={'packet': PKT_C06},
+        returns='bool',
+        hints=['sem_and_def(anded, packet)'],
+        loops={
+            ('', 0): LoopSpec(invariants={'conditions_so_far':
+                                          'forall(lambda k: sem_cond(at(anded.conditions, k), packet), 0, _i)'}),
+            ('', 1): LoopSpec(invariants={'all_conditions':
+                                          'forall(lambda k: sem_cond(at(anded.conditions, k), packet), 0, len(anded.conditions))',
+                                          'ors_so_far': 'forall(lambda k: sem_or(at(anded.ors, k), packet), 0, _i)'}),
+        },
+        ensures={'truth': 'result == sem_and(anded, packet)'},
+        may_raise={'ComparisonError': 'True', 'ValueError': 'True', 'KeyError': 'True', 'TypeError': 'True'},
+        modifies=[],
+    ),
+    Contract(
+        target='xtce.comparisons.BooleanExpression.evaluate._or',
+        props=['C06', 'C05', 'C08', 'C01'],
+        params={'ored': ('rec', 'Ored')}, captures={'packet': PKT_C06},
+        returns='bool',
+        hints=['sem_or_def(ored, packet)'],
+        loops={
+            ('', 0): LoopSpec(invariants={'none_so_far':
+                                          'forall(lambda k: not sem_cond(at(ored.conditions, k), packet), 0, _i)'}),
+            ('', 1): LoopSpec(invariants={'no_condition':
+                                          'forall(lambda k: not sem_cond(at(ored.conditions, k), packet), 0, len(ored.conditions))',
+                                          'no_and_so_far': 'forall(lambda k: not sem_and(at(ored.ands, k), packet), 0, _i)'}),
+        },
+        ensures={'truth': 'result == sem_or(ored, packet)'},
+        may_raise={'ComparisonError': 'True', 'ValueError': 'True', 'KeyError': 'True', 'TypeError': 'True'},
+        modifies=[],
+    ),
+    Contract(
         target='xtce.comparisons.DiscreteLookup.evaluate',
         props=['C06', 'C07', 'C01'],
-        params={}, native_only=PENDING,
+        params={'self': ('rec', 'DiscreteLookup'), 'packet': PKT_C06},
+        variants={'no_current': {'params': {'current_parsed_value': 'none'}},
+                  'current_int': {'params': {'current_parsed_value': 'int'}},
+                  'current_float': {'params': {'current_parsed_value': 'real'}}},
+        returns=('opt', 'real'),
         requires=[],
-        ensures={'value': 'result == ref_lookup(self, packet, current_parsed_value)'},
-        raises={'ComparisonError': "outcome(ref_lookup(self, packet, current_parsed_value)) == 'ComparisonError'",
-                'ValueError': "outcome(ref_lookup(self, packet, current_parsed_value)) == 'ValueError'"},
+        comps={0: {'elem': 'sem_cmp(at(self.match_criteria, j), packet, current_parsed_value)',
+                   'may_raise': ['ComparisonError', 'ValueError', 'KeyError']}},
+        ensures={
+            # PROVED: the lookup value iff ALL criteria hold (a list is a conjunction), None otherwise
+            'match': ('implies(forall(lambda j: sem_cmp(at(self.match_criteria, j), packet, current_parsed_value), 0, '
+                      'len(self.match_criteria)), result == self.lookup_value)', ['__proof__']),
+            'no_match': ('implies(not forall(lambda j: sem_cmp(at(self.match_criteria, j), packet, current_parsed_value), 0, '
+                         'len(self.match_criteria)), result is None)', ['__proof__']),
+            'value_exact': ('result == ref_lookup(self, packet, current_parsed_value)', ['__native__']),
+        },
+        may_raise={'ComparisonError': 'True', 'ValueError': 'True', 'KeyError': 'True'},
         modifies=[],
         native={'gen': _gen_lookup, 'build': _build_lookup},
     ),
